@@ -104,11 +104,11 @@ func rigTable(quick bool) ([]rigDef, map[string]budget) {
 		b["azure"] = budget{rounds: 2, writes: 4, wfaults: 1}
 		b["queue"] = budget{rounds: 0, writes: 8, wfaults: 2, fullq: 1}
 	} else {
-		b["http"] = budget{rounds: 70, stalls: 18, queued: 4, writes: 48, wfaults: 20}
-		b["grpc"] = budget{rounds: 70, stalls: 16, queued: 4, writes: 48, wfaults: 12}
-		b["fake"] = budget{rounds: 60, stalls: 18, queued: 6, writes: 40}
-		b["s3"] = budget{rounds: 16, slow: 1, stalls: 6, writes: 24, wfaults: 3}
-		b["azure"] = budget{rounds: 16, writes: 24, wfaults: 3}
+		b["http"] = budget{rounds: 150, stalls: 18, queued: 6, writes: 64, wfaults: 20}
+		b["grpc"] = budget{rounds: 150, stalls: 16, queued: 6, writes: 64, wfaults: 12}
+		b["fake"] = budget{rounds: 130, stalls: 18, queued: 8, writes: 48}
+		b["s3"] = budget{rounds: 40, slow: 1, stalls: 6, writes: 24, wfaults: 3}
+		b["azure"] = budget{rounds: 40, writes: 24, wfaults: 3}
 		b["queue"] = budget{rounds: 0, writes: 32, wfaults: 6, fullq: 3}
 	}
 	return defs, b
